@@ -31,6 +31,19 @@ fn main() {
         "replay" if args.len() >= 3 => driver::replay(&args[2]),
         "replay-worker" if args.len() >= 3 => driver::replay_worker(&args[2]),
         "selftest-determinism" if args.len() >= 3 => driver::selftest_determinism(&args[2], &args[3..]),
+        "bench-fork" => {
+            let t = std::time::Instant::now();
+            for i in 0..2000u32 {
+                let _ = seam::run_forked(move || i);
+            }
+            println!("2000 forks of a bare process: {:?} per fork", t.elapsed() / 2000);
+            let t = std::time::Instant::now();
+            for i in 0..2000u32 {
+                let _ = seam::run_forked(move || seam::run_simulated_process(1, None, move || i).unwrap_or(0));
+            }
+            println!("2000 forks + thread: {:?} per fork", t.elapsed() / 2000);
+            0
+        }
         "dump" if args.len() >= 4 => driver::dump(&args[2], args[3].parse().unwrap_or(0)),
         _ => usage(),
     };
